@@ -52,10 +52,12 @@ impl EventGen for ReuseElement {
             .inspect_err(|_| {
                 context.pop_element();
             })?;
-        instance_element.expand_compound_size();
+        // (evaluate before `wh="{{..}}"` is split into width and height, or the one
+        // expression would be evaluated once for each)
         instance_element.eval_attributes(context).inspect_err(|_| {
             context.pop_element();
         })?;
+        instance_element.expand_compound_size();
         let instance_size = instance_element.size(context)?;
 
         // Override 'default' attr values in the target
